@@ -20,7 +20,7 @@ SHAPE = PARAM % 6
 
 @obligation(funcs=["storage.base.BaseSubscription.check_event", "storage.db.Subscription.build_query",
                    "storage.db.DBStorage.process_tags"],
-            params=range(6), timeout=(280, 1200),
+            params=range(6), timeout=(450, 1500),
             bounds="PARAM = filter shape: 0 ids, 1 authors (+ optional delegation tag naming one of 3 keys), 2 kinds, 3 since/until "
                    "(incl. 0), 4 one tag condition (values incl. '', bare tags), 5 kinds+until+tag; ints symbolic, strings by "
                    "selector; event: symbolic kind/created_at, one tag of 1-2 items")
